@@ -23,6 +23,131 @@ TRUSTED = ['itertools.takewhile / count, more_itertools.unique_everseen, round s
            'the coverage clause (the fan reaches every cell) is declined']
 
 RT = 'gym_gridverse/utils/raytracing.py'
+COUNTS = ('itt.count()', 'itertools.count()', 'count()', 'itt.count(0)', 'itertools.count(0)')
+
+
+def _sample_ok(w, e: ast.AST, i_: str, pos: str, coord: str, trig: str) -> bool:
+    """e is  origin.coord + i * (step_size * math.trig(radians))  up to commutation, float()
+    around the origin and naming of intermediates"""
+    e = w.expand(e, stop=[i_])
+    if not (isinstance(e, ast.BinOp) and isinstance(e.op, ast.Add)):
+        return False
+    for base, inc in ((e.left, e.right), (e.right, e.left)):
+        if not (isinstance(inc, ast.BinOp) and isinstance(inc.op, ast.Mult)):
+            continue
+        for ii, dd in ((inc.left, inc.right), (inc.right, inc.left)):
+            if src(ii) != i_:
+                continue
+            if src(base) not in (f'float({pos}.{coord})', f'{pos}.{coord}',
+                                 f'{pos}.yx[{0 if coord == "y" else 1}]',
+                                 f'float({pos}.yx[{0 if coord == "y" else 1}])'):
+                continue
+            if isinstance(dd, ast.BinOp) and isinstance(dd.op, ast.Mult):
+                parts = {src(dd.left), src(dd.right)}
+                if parts == {'step_size', f'math.{trig}(radians)'}:
+                    return True
+    return False
+
+
+def ray_model(f, w, pos: str, area: str) -> dict:
+    """what compute_ray does, from either spelling: the generator pipeline
+    (zip of two sample streams -> Position(round, round) -> takewhile -> unique_everseen) or
+    the explicit loop over count() (cell; break when outside; skip a repeat; append)"""
+    from ..guards import (parse_guard, prop_equiv, prop_implies, show, strip_iter)
+    m = {'cut': False, 'order': False, 'dedupe': False, 'dedupe_conditional': False,
+         'rounding': False, 'samples': False, 'cut_text': '', 'dedupe_text': '',
+         'cell_text': '', 'sample_text': ''}
+    rets = [e for e in w.events if e.kind == 'return' and e.value is not None]
+    if len(rets) != 1:
+        raise AnalysisError('compute_ray: expected one return')
+    val = rets[0].value
+    loops = [n for n in ast.walk(f.node) if isinstance(n, ast.For) and src(n.iter) in COUNTS]
+    if loops:
+        # ---- loop form
+        lp = loops[0]
+        i_ = src(lp.target)
+        inside = {id(n) for n in ast.walk(lp)}
+        apps = [e for e in w.events if e.kind == 'call' and id(e.node) in inside
+                and isinstance(e.node.func, ast.Attribute) and e.node.func.attr == 'append'
+                and src(e.node.func.value) == src(val) and len(e.node.args) == 1]
+        brs = [e for e in w.events if e.kind == 'break' and id(e.node) in inside]
+        if len(apps) != 1 or len(brs) != 1:
+            raise AnalysisError(f'compute_ray loop: {len(apps)} appends, {len(brs)} breaks')
+        ap, br = apps[0], brs[0]
+        cell = w.expand(ap.node.args[0], stop=[i_])
+        m['cell_text'] = src(cell)
+        cname = src(ap.node.args[0])
+        contains = f'{area}.contains({cname})'
+        bg = strip_iter(br.guard)
+        m['cut_text'] = f'break when {show(bg)}'
+        m['cut'] = prop_equiv(bg, parse_guard(f'not {contains}')) is None
+        ag = strip_iter(ap.guard)
+        m['order'] = br.order < ap.order and prop_implies(ag, parse_guard(contains)) is None
+        # the append happens unless outside or a repeat of the previous cell
+        ray = src(val)
+        rep_t = f'{cname} == {ray}[-1]'
+        want_cond = parse_guard(f'{contains} and not (unique and {ray} and {rep_t})')
+        want_unc = parse_guard(f'{contains} and not ({ray} and {rep_t})')
+        m['dedupe_text'] = show(ag)
+        if prop_equiv(ag, want_cond) is None:
+            m['dedupe'], m['dedupe_conditional'] = True, True
+        elif prop_equiv(ag, want_unc) is None:
+            m['dedupe'] = True
+        if isinstance(cell, ast.Call) and src(cell.func) == 'Position' and len(cell.args) == 2 \
+                and all(isinstance(a, ast.Call) and src(a.func) == 'round' and len(a.args) == 1
+                        for a in cell.args):
+            m['rounding'] = True
+            ys, xs = cell.args[0].args[0], cell.args[1].args[0]
+            m['sample_text'] = f'{src(ys)}; {src(xs)}'
+            m['samples'] = _sample_ok(w, ys, i_, pos, 'y', 'sin') and \
+                _sample_ok(w, xs, i_, pos, 'x', 'cos')
+        return m
+    # ---- pipeline form: follow the chain of re-bindings of the stream variable
+    e = w.expand(val)
+    chain = []
+    cur = e
+    if isinstance(cur, ast.Call) and src(cur.func) == 'list' and len(cur.args) == 1:
+        cur = cur.args[0]
+    if isinstance(cur, ast.IfExp) and src(cur.test) == 'unique' and \
+            isinstance(cur.body, ast.Call) and src(cur.body.func).endswith('unique_everseen') \
+            and src(cur.body.args[0]) == src(cur.orelse):
+        m['dedupe'], m['dedupe_conditional'] = True, True
+        m['dedupe_text'] = 'unique_everseen(..) if unique else ..'
+        cur = cur.orelse
+    elif isinstance(cur, ast.Call) and src(cur.func).endswith('unique_everseen') and cur.args:
+        m['dedupe'] = True
+        m['dedupe_text'] = 'unique_everseen(..)'
+        cur = cur.args[0]
+    m['cut_text'] = src(cur)[:200]
+    if isinstance(cur, ast.Call) and src(cur.func) in ('itt.takewhile', 'takewhile',
+                                                       'itertools.takewhile') and \
+            len(cur.args) == 2 and src(cur.args[0]) == f'{area}.contains':
+        m['cut'] = True
+        cur = cur.args[1]
+        if isinstance(cur, ast.GeneratorExp) and len(cur.generators) == 1:
+            m['order'] = True
+            g0 = cur.generators[0]
+            m['cell_text'] = src(cur.elt)
+            if isinstance(cur.elt, ast.Call) and src(cur.elt.func) == 'Position' and \
+                    len(cur.elt.args) == 2 and isinstance(g0.target, ast.Tuple) and \
+                    len(g0.target.elts) == 2 and isinstance(g0.iter, ast.Call) and \
+                    src(g0.iter.func) == 'zip' and len(g0.iter.args) == 2 and not g0.ifs:
+                a, b = (src(x) for x in g0.target.elts)
+                m['rounding'] = [src(x) for x in cur.elt.args] == [f'round({a})', f'round({b})']
+                ok = True
+                texts = []
+                for st, coord, trig in ((g0.iter.args[0], 'y', 'sin'),
+                                        (g0.iter.args[1], 'x', 'cos')):
+                    texts.append(src(st)[:120])
+                    if not (isinstance(st, ast.GeneratorExp) and len(st.generators) == 1 and
+                            not st.generators[0].ifs and src(st.generators[0].iter) in COUNTS):
+                        ok = False
+                        continue
+                    ok = ok and _sample_ok(w, st.elt, src(st.generators[0].target), pos,
+                                           coord, trig)
+                m['samples'] = ok
+                m['sample_text'] = '; '.join(texts)
+    return m
 
 
 def run(index: RepoIndex, rep) -> None:
@@ -48,116 +173,27 @@ def run(index: RepoIndex, rep) -> None:
               '; '.join(src(e.stmt) for e in raises) or 'no raise',
               'compute_ray does not reject an origin outside the area with ValueError',
               'origin in area')
-    rets = [e for e in w.events if e.kind == 'return' and e.value is not None]
-    if len(rets) != 1:
-        raise AnalysisError('compute_ray: expected one return')
-    # follow the chain of rebinding of the stream variable
-    chain: List[str] = []
-    val = rets[0].value
-    if isinstance(val, ast.Call) and src(val.func) == 'list' and len(val.args) == 1 and \
-            isinstance(val.args[0], ast.Name):
-        var = val.args[0].id
-        defs = [d for d in w.defs.get(var, []) if d[0] == 'value']
-        chain = [src(d[1]) for d in defs]
-    else:
-        chain = [src(val)]
-    tw = [c for c in chain if c.startswith('itt.takewhile(') or c.startswith('takewhile(')]
-    rep.check(any(c in (f'itt.takewhile({area}.contains, {var})',
-                        f'takewhile({area}.contains, {var})') for c in tw) if chain else False,
-              'C19.R1', RT, 'compute_ray', f.node.lineno, ' -> '.join(chain)[:300],
-              'the stream of cells is not cut by takewhile(area.contains, ..): a ray could '
+    model = ray_model(f, w, pos, area)
+    rep.check(model['cut'], 'C19.R1', RT, 'compute_ray', f.node.lineno, model['cut_text'][:300],
+              'the stream of cells is not cut at the first cell outside the area '
+              '(takewhile(area.contains, ..) / break when not area.contains(cell)): a ray could '
               'leave the area or be cut elsewhere', 'takewhile(area.contains)')
-    order_ok = False
-    if chain:
-        idx_tw = [i for i, c in enumerate(chain) if 'takewhile' in c]
-        idx_gen = [i for i, c in enumerate(chain) if 'Position(' in c]
-        order_ok = bool(idx_tw and idx_gen) and idx_gen[0] < idx_tw[0]
-    rep.check(order_ok, 'C19.R1', RT, 'compute_ray', f.node.lineno, ' -> '.join(chain)[:300],
+    rep.check(model['order'], 'C19.R1', RT, 'compute_ray', f.node.lineno,
+              model['cut_text'][:300],
               'cells are not generated (rounded samples) before being cut by the area test',
               'pipeline order')
     # ---- R2
-    un = [c for c in chain if 'unique_everseen' in c]
     d = f.param_defaults()
-    ok = len(un) == 1 and un[0] in (f'mitt.unique_everseen({var}) if unique else {var}',
-                                    f'mitt.unique_everseen({var})') and \
-        (('if unique' not in un[0]) or (isinstance(d.get('unique'), ast.Constant)
-                                        and d['unique'].value is True))
-    rep.check(ok, 'C19.R2', RT, 'compute_ray', f.node.lineno, '; '.join(un),
-              'cells are not de-duplicated by unique_everseen under the default unique=True',
-              'unique_everseen by default')
-    # name-agnostic reconstruction of the sample stream
-    def resolve(e, depth=6):
-        """expand a local through its single binding (tuple unpacking included)"""
-        while depth > 0 and isinstance(e, ast.Name):
-            d_ = w.single_def(e.id)
-            if d_ is None:
-                ds = w.defs.get(e.id, [])
-                if len(ds) == 1 and ds[0][0] == 'unpack':
-                    val_, i_ = ds[0][1]
-                    if isinstance(val_, ast.Tuple) and i_ < len(val_.elts):
-                        e = val_.elts[i_]
-                        depth -= 1
-                        continue
-                break
-            if d_[0] == 'value':
-                e = d_[1]
-            elif d_[0] == 'unpack' and isinstance(d_[1][0], ast.Tuple):
-                e = d_[1][0].elts[d_[1][1]]
-            else:
-                break
-            depth -= 1
-        return e
-
-    gens = [d for d in w.defs.get(var, []) if d[0] == 'value'
-            and isinstance(d[1], ast.GeneratorExp)] if chain else []
-    ok_round = False
-    streams = (None, None)
-    if len(gens) == 1:
-        ge = gens[0][1]
-        g0 = ge.generators[0]
-        if isinstance(ge.elt, ast.Call) and src(ge.elt.func) == 'Position' and \
-                len(ge.elt.args) == 2 and isinstance(g0.target, ast.Tuple) and \
-                len(g0.target.elts) == 2 and isinstance(g0.iter, ast.Call) and \
-                src(g0.iter.func) == 'zip' and len(g0.iter.args) == 2 and not g0.ifs:
-            a, b = (src(x) for x in g0.target.elts)
-            ok_round = [src(x) for x in ge.elt.args] == [f'round({a})', f'round({b})']
-            streams = (resolve(g0.iter.args[0]), resolve(g0.iter.args[1]))
-    rep.check(ok_round, 'C19.R2', RT, 'compute_ray', f.node.lineno,
-              src(gens[0][1]) if gens else '',
+    ok = model['dedupe'] and (not model['dedupe_conditional'] or (
+        isinstance(d.get('unique'), ast.Constant) and d['unique'].value is True))
+    rep.check(ok, 'C19.R2', RT, 'compute_ray', f.node.lineno, model['dedupe_text'][:200],
+              'cells are not de-duplicated (unique_everseen / skipping a repeat of the previous '
+              'cell) under the default unique=True', 'unique_everseen by default')
+    rep.check(model['rounding'], 'C19.R2', RT, 'compute_ray', f.node.lineno,
+              model['cell_text'][:200],
               'cells are not Position(round(y), round(x)) of the two sample streams', 'rounding')
-
-    def stream_ok(e, coord, trig):
-        """(origin + i * step*trig(angle) for i in count()) -> True"""
-        if not (isinstance(e, ast.GeneratorExp) and len(e.generators) == 1):
-            return False
-        g_ = e.generators[0]
-        if g_.ifs or src(g_.iter) not in ('itt.count()', 'itertools.count()', 'count()',
-                                          'itt.count(0)'):
-            return False
-        i_ = src(g_.target)
-        el = e.elt
-        if not (isinstance(el, ast.BinOp) and isinstance(el.op, ast.Add)):
-            return False
-        for base, inc in ((el.left, el.right), (el.right, el.left)):
-            if not (isinstance(inc, ast.BinOp) and isinstance(inc.op, ast.Mult)):
-                continue
-            for ii, dd in ((inc.left, inc.right), (inc.right, inc.left)):
-                if src(ii) != i_:
-                    continue
-                o_ = src(resolve(base))
-                dl = resolve(dd)
-                if o_ not in (f'float({pos}.{coord})', f'{pos}.{coord}'):
-                    continue
-                if isinstance(dl, ast.BinOp) and isinstance(dl.op, ast.Mult):
-                    parts = {src(dl.left), src(dl.right)}
-                    if parts == {'step_size', f'math.{trig}(radians)'}:
-                        return True
-        return False
-
-    ok = streams[0] is not None and stream_ok(streams[0], 'y', 'sin') and \
-        stream_ok(streams[1], 'x', 'cos')
-    rep.check(ok, 'C19.R2', RT, 'compute_ray', f.node.lineno,
-              '; '.join(src(x) for x in streams if x is not None),
+    rep.check(model['samples'], 'C19.R2', RT, 'compute_ray', f.node.lineno,
+              model['sample_text'][:300],
               'samples are not origin + i*step*(sin, cos)(angle) for i = 0, 1, ..: the ray '
               'would not start at its origin or its direction is not a unit vector',
               'samples from the origin along a unit direction')
@@ -182,6 +218,8 @@ def run(index: RepoIndex, rep) -> None:
         raise AnalysisError(f'found {n_sites} call sites of compute_ray, floor is 2')
     # ---- R4
     eff = Effects(index)
+    from .c03 import memo_rules
+    memo_rules(index, rep, 'C19.R4', eff, only_rel=RT)
     for name in ('compute_ray', 'compute_rays', 'compute_rays_fancy'):
         fn = index.func(RT, name)
         s = eff.summary(fn)
